@@ -75,6 +75,7 @@ def _inplace(xp, a, b):
 
 
 CASES += [("masked_assign", _masked), ("inplace_view", _inplace)]
+CASES += [("flatnonzero", lambda xp, a, b: xp.flatnonzero(a > b)), ("count_nonzero", lambda xp, a, b: xp.asarray([xp.count_nonzero(a > 0.0)]))]
 CASES += [("sort_axis0", lambda xp, a, b: xp.sort(a, axis=0)), ("sort_last", lambda xp, a, b: xp.sort(b))]
 
 
